@@ -2,6 +2,8 @@
 
 CFGS = {
     "prod": {},
+    "small8": {"CONFIG_MAX_MESSAGE_SIZE": 8, "CONFIG_MAX_WRITE_BUFFER_SIZE": 8},
+    "small16": {"CONFIG_MAX_MESSAGE_SIZE": 16, "CONFIG_MAX_WRITE_BUFFER_SIZE": 16},
 }
 
 TRUSTED_BASE = [
@@ -142,3 +144,66 @@ unit("ws.hdr", ["C12", "C06"], "units/ws.c", entry="h_ws_hdr",
      assumes=["ws_get_payload is cut off in this unit (its body is verified in ws.frame); zero-length frames continue there"])
 unit("ws.send", ["C12", "C10", "C06"], "units/ws.c", entry="h_ws_send", functions=["send_frame"],
      expect_tags=["C12.send.minimal-length-16bit", "C12.send.server-frames-unmasked"], timeout=300, **WS_COMMON)
+# with permessage-deflate not negotiated the decompression helpers must be unreachable: assert(false) bodies
+WS_NO_DEFLATE = ["--remove-function-body", "private_decompress", "--remove-function-body", "reassemble", "--remove-function-body", "websocket_compress",
+                 "--generate-function-body", "private_decompress|reassemble|websocket_compress", "--generate-function-body-options", "assert-false-assume-false"]
+for _d in (1, 0):
+    unit("ws.frame.%s" % ("daemon-callbacks" if _d else "any-callbacks"), ["C12", "C06"], "units/ws.c", entry="h_ws_frame",
+         functions=["ws_handle_frame", "is_status_code_invalid", "handle_error", "websocket_close", "websocket_send_pong_frame", "websocket_send_close_frame",
+                    "text_received_comp", "binary_received_comp", "text_frame_received_comp", "binary_frame_received_comp"],
+         expect_tags=["C12.frame.protocol-violation-closes-1002", "C12.frame.ping-answered-by-identical-pong", "C12.close.valid-close-is-echoed-and-connection-released-once"],
+         timeout=200, **dict(WS_COMMON, defines=["NO_GZIP", "WS_DAEMON_CB=%d" % _d], goto_instrument_args=WS_NO_DEFLATE + ["--value-set-fi-fp-removal"]),
+         assumes=["permessage-deflate not negotiated", "UTF-8 validator by its contract (C18): any verdict", "server-side websocket"])
+unit("ws.payload", ["C12", "C06"], "units/ws.c", entry="h_ws_payload", functions=["ws_get_payload"],
+     expect_tags=["C12.payload.unmasked-client-frame-closes-1002", "C12.payload.eof-closes-1001"], timeout=200,
+     **dict(WS_COMMON, goto_instrument_args=WS_NO_DEFLATE + ["--remove-function-body", "unmask_payload", "--value-set-fi-fp-removal"], flags=[]),
+     assumes=["unmask_payload cut off (unit ws.unmask): no effect on the 4-byte dummy buffer"], allow_no_body=["unmask_payload"])
+unit("ws.unmask", ["C12", "C06"], "units/ws.c", entry="h_ws_unmask", functions=["unmask_payload"], kind="bounded",
+     bound="payload length <= 20 bytes (thorough: 40), start alignment 0..7, any mask and content",
+     expect_tags=["C12.unmask.every-payload-byte-xored-with-mask-j-mod-4", "C12.unmask.nothing-outside-the-payload-written"], timeout=300,
+     **dict(WS_COMMON, unwind=24, defines_thorough=["WS_UNMASK_MAX=40"], unwind_thorough=44, goto_instrument_args=[]))
+
+# ------------------------------------------------------------------------------------------
+# C10 outbound streams / C09 inbound segmentation (buffered_socket.c)
+# ------------------------------------------------------------------------------------------
+BS_COMMON = dict(cfg="small8", solver="cadical", unwind=26, mem_gb=24, goto_instrument_args=["--value-set-fi-fp-removal"], kind="proof",
+                 bound="configuration CONFIG_MAX_MESSAGE_SIZE = CONFIG_MAX_WRITE_BUFFER_SIZE = 8 (all loops bounded by the buffer size; unwinding assertions on); frames of <= 2 x 6 bytes",
+                 assumes=["ghost kernel: writev accepts any non-empty prefix or fails with any errno; read delivers any non-empty prefix of the stream, 0 or -1"])
+unit("bs.writev", ["C10", "C06"], "units/bs.c", entry="h_bs_writev",
+     functions=["buffered_socket_writev", "copy_iovec_to_write_buffer", "copy_single_buffer", "send_buffer"],
+     expect_tags=["C10.writev.accepted-frame-sent-or-pending-completely", "C10.writev.bytes-in-generation-order", "C10.writev.refused-frame-leaves-no-byte-behind"], timeout=600, **BS_COMMON)
+unit("bs.flush", ["C10", "C06"], "units/bs.c", entry="h_bs_flush", functions=["write_function", "send_buffer", "error_function"],
+     expect_tags=["C10.flush.nothing-lost-nothing-duplicated", "C10.flush.bytes-in-order"], timeout=600, **BS_COMMON)
+unit("bs.read_exactly", ["C09", "C06"], "units/bs.c", entry="h_bs_read_exactly", functions=["get_read_ptr", "fill_buffer", "reorganize_read_buffer"],
+     expect_tags=["C09.exact.hands-out-the-next-stream-bytes-whatever-the-chunking", "C09.exact.buffer-still-mirrors-the-stream"], timeout=600, **BS_COMMON)
+unit("bs.read_until", ["C09", "C06"], "units/bs.c", entry="h_bs_read_until", functions=["internal_read_until", "fill_buffer", "reorganize_read_buffer"],
+     expect_tags=["C09.until.hands-out-the-next-stream-bytes", "C09.until.stops-at-the-first-delimiter"], timeout=600, **BS_COMMON)
+
+# ------------------------------------------------------------------------------------------
+# C02 JSON-RPC discipline (response.c, parse.c)
+# ------------------------------------------------------------------------------------------
+CJ_ASSUME = ["cJSON: executable model stubs/cjson_model.h (assumed contract of the vendored library)"]
+for _h, _fns in (("error", ["create_error_response", "create_error_object", "create_common_response", "add_subobject_to_object"]),
+                 ("result", ["create_result_response", "create_common_response"]),
+                 ("from_request", ["create_error_response_from_request", "create_success_response_from_request", "create_result_response_from_request"])):
+    unit("resp." + _h, ["C02", "C06"], "units/resp.c", entry="h_resp_" + _h, functions=_fns, unwind=20, solver="cadical",
+         kind="proof", bound="id strings <= 3 characters; every id type and every double; string literals <= 24 characters",
+         flags=["--memory-leak-check"], timeout=300, assumes=CJ_ASSUME)
+    unit("resp.%s.allocfail" % _h, ["C15"], "units/resp.c", entry="h_resp_" + _h, functions=_fns, unwind=20, solver="cadical",
+         defines=["RESP_FAIL=1"], tier="thorough", kind="proof", bound="as resp.%s; every subset of allocations fails" % _h,
+         flags=["--memory-leak-check"], timeout=300, assumes=CJ_ASSUME)
+
+# ------------------------------------------------------------------------------------------
+# C08 access control (peer.c, groups.c, authenticate.c, linux_io.c)
+# ------------------------------------------------------------------------------------------
+unit("peer.init", ["C08", "C06"], "units/u_peer.c", entry="h_peer_init", functions=["init_peer"], unwind=4, solver="cadical",
+     expect_tags=["C08.peer.new-peer-holds-no-groups"], timeout=120, assumes=["add_routing_table: returns 0 or -1"])
+unit("peer.log", ["C06"], "units/u_peer.c", entry="h_peer_log", functions=["log_peer_err", "log_peer_info", "get_peer_name"], unwind=4, solver="cadical",
+     expect_tags=["C06.log.size-fits-remaining-buffer"], timeout=120,
+     assumes=["snprintf/vsnprintf: write at most `size` bytes, return the would-be length (any value >= 0)"])
+unit("grp.bits", ["C08", "C06"], "units/u_groups.c", entry="h_grp_bits", functions=["get_groups", "has_access"], unwind=8, solver="cadical",
+     kind="proof", bound="up to 4 registered groups, up to 2 listed groups, one-character names",
+     expect_tags=["C08.grp.bit-j-set-iff-a-listed-name-equals-registered-group-j", "C08.grp.access-is-non-empty-intersection"], timeout=300, assumes=CJ_ASSUME)
+unit("grp.bits.32", ["C08", "C06"], "units/u_groups.c", entry="h_grp_bits", functions=["get_groups"], unwind=34, solver="cadical",
+     defines=["G_MAX=32", "G_FULL=1"], kind="proof", bound="exactly 32 registered groups (the maximum), one listed group",
+     expect_tags=["C08.grp.bit-j-set-iff-a-listed-name-equals-registered-group-j"], timeout=900, assumes=CJ_ASSUME)
